@@ -104,6 +104,38 @@ func init() {
 		}
 		return r
 	})
+	// host = name [":" port]: Port/Hostname on the URL parts
+	hostParts := func(fr *frame, u value) (name, port value) {
+		i := fr.i
+		pv := u.(*value)
+		if pv == nil {
+			rtPanic("nil *url.URL")
+		}
+		t := i.namedType("net/url", "URL")
+		host := (*pv).(structure)[i.fieldIndex(t, "Host")]
+		if c, ok := host.(string); ok {
+			uu := url.URL{Host: c}
+			return uu.Hostname(), uu.Port()
+		}
+		segs := segmentsOf(host)
+		p := i.path
+		// find the last concrete segment containing ':' ; everything after it must be digit-only
+		for k := len(segs) - 1; k >= 0; k-- {
+			switch sg := segs[k].(type) {
+			case string:
+				if j := strings.LastIndex(sg, ":"); j >= 0 {
+					return mkConcat(concatOf(segs[:k]), sg[:j]), mkConcat(sg[j+1:], concatOf(segs[k+1:]))
+				}
+			case *Sym:
+				if !p.noContain(sg.e, ":") {
+					unsup("url host with a symbolic part that may contain ':'")
+				}
+			}
+		}
+		return host, ""
+	}
+	reg("(*net/url.URL).Port", func(fr *frame, a []value) value { _, p := hostParts(fr, a[0]); return p })
+	reg("(*net/url.URL).Hostname", func(fr *frame, a []value) value { n, _ := hostParts(fr, a[0]); return n })
 	reg("net/textproto.CanonicalMIMEHeaderKey", func(fr *frame, a []value) value {
 		c, ok := a[0].(string)
 		if !ok {
